@@ -29,6 +29,13 @@ RX_GOOD = ['a.*', 'a', '.b', '[ab]+', 'a+b', 'b|zz', '.', 'a{1,2}b']
 RX_ODD = ['a{2,1}', '[z-a]', 'a{3,2}b', 'a{2,1}|b', '[b-a]x']     # check() accepts them, the regex engine does not
 
 
+def enc_find_error(ex):
+    """an error of find(): compile-time errors carry the token offset (as the model's do); a recursion error raised during evaluation is compared by class only"""
+    enc = wire.enc_exception(ex)
+    if enc[0] != 1: return enc[:2]
+    return enc[:2] + [0] if enc[1] == 6 else enc
+
+
 def ids(v, acc):
     if isinstance(v, (list, dict)):
         acc.append(id(v))
@@ -84,6 +91,7 @@ def cases(ctx, budget):
             docs.append(gen.rand_json(rng, depth=rng.randint(1, 3), fan=4, top=True))
         steps = rng.randint(10, 40)
         regs = []        # per env: names registered so far
+        classes = {}; used_texts = []; cfgs = []; regobjs = []
         applied = []     # (compiled query, document) pairs applied so far
         pending_reapply = []
         for s in range(steps):
@@ -92,11 +100,15 @@ def cases(ctx, budget):
                 depth = rng.choice([100, 100, 3, 50])
                 lo, hi = rng.choice([(-harness.LIM, harness.LIM), (-5, 5)])
 
-                class E(jp.JSONPathEnvironment):
-                    max_recursion_depth = depth
-                    min_int_index = lo
-                    max_int_index = hi
-                envs.append(E()); regs.append([])
+                # environments of one and the same class (same limits) must not share anything either: reuse a class made earlier in this history
+                key = (depth, lo, hi)
+                if key not in classes or rng.random() < 0.5:
+                    class E(jp.JSONPathEnvironment):
+                        max_recursion_depth = depth
+                        min_int_index = lo
+                        max_int_index = hi
+                    classes[key] = E
+                envs.append(classes[key]()); regs.append([]); cfgs.append(key); regobjs.append({})
                 ops.append([0, depth, lo, hi, 0]); outs.append([0]); log.append("new env depth=%d range=%d..%d" % (depth, lo, hi))
                 continue
             if r > 0.93:
@@ -108,13 +120,19 @@ def cases(ctx, budget):
             e = rng.randrange(len(envs))
             names = gen.SIMPLE_NAMES
             reg4 = [b for b in gen.BUILTINS if b[0] not in ('match', 'search')] + regs[e]      # regex results are an oracle elsewhere (C11)
-            mk_text = lambda: gen.render_query(rng, gen.rand_query(rng, names=names, reg=[x[:4] for x in reg4], depth=2, maxseg=3))
+            def mk_text():
+                # the same text again in another (or the same) environment: a result must not depend on who compiled the text before
+                if used_texts and rng.random() < 0.35: return rng.choice(used_texts)
+                t = gen.render_query(rng, gen.rand_query(rng, names=names, reg=[x[:4] for x in reg4], depth=2, maxseg=3))
+                used_texts.append(t)
+                return t
             if r < 0.2:
                 name = rng.choice(["f0", "f1", "length", "g"])
                 args = [rng.choice([1, 2, 3]) for _ in range(rng.randint(0, 2))]
                 ret = rng.choice([1, 2])
                 const = rng.choice([0, 1, "a", None]) if ret == 1 else rng.random() < 0.5
-                envs[e].function_extensions[name] = double(args, ret, const)
+                fobj = double(args, ret, const)
+                envs[e].function_extensions[name] = fobj; regobjs[e][name] = (args, ret, const)
                 regs[e] = [x for x in regs[e] if x[0] != name] + [(name, args, ret, [5] + gen.enc_pyobj(const))]
                 if name == "length": reg4 = None
                 ops.append([1, e] + wire.enc_str(name) + [len(args)] + args + [ret, 5] + gen.enc_pyobj(const)); outs.append([0])
@@ -135,21 +153,34 @@ def cases(ctx, budget):
                 applied.append((c, d))
                 before = copy.deepcopy(docs[d]); idb = ids(docs[d], [])
                 try: o = [1] + harness.enc_nodes(compiled[c][1].find(docs[d]))
-                except Exception as ex: o = [1] + wire.enc_exception(ex)[:2] + ([0] if wire.enc_exception(ex)[0] == 1 else [])
+                except Exception as ex: o = [1] + enc_find_error(ex)
                 if wire.enc_json(before) != wire.enc_json(docs[d]) or idb != ids(docs[d], []): problems.append("apply modified its argument")
                 ops.append([3, c] + wire.enc_json(before)); outs.append(o); log.append("apply cq%d doc%d -> %r" % (c, d, o[:3]))
             elif r < 0.85:
                 text = mk_text(); d = rng.randrange(len(docs))
                 before = copy.deepcopy(docs[d]); idb = ids(docs[d], [])
                 try: o = [1] + harness.enc_nodes(envs[e].find(text, docs[d]))
-                except Exception as ex: o = [1] + wire.enc_exception(ex)[:2] + ([0] if wire.enc_exception(ex)[0] == 1 else [])
+                except Exception as ex: o = [1] + enc_find_error(ex)
                 if wire.enc_json(before) != wire.enc_json(docs[d]) or idb != ids(docs[d], []): problems.append("find modified its argument")
+                # isolation, decided without the model: a brand-new environment with the same limits and the same registrations, which has never
+                # seen any other query or environment, must give the same answer
+                dd, lo_, hi_ = cfgs[e]
+
+                class F(jp.JSONPathEnvironment):
+                    max_recursion_depth = dd
+                    min_int_index = lo_
+                    max_int_index = hi_
+                fe = F()
+                for nm, (a_, r_, c_) in regobjs[e].items(): fe.function_extensions[nm] = double(a_, r_, c_)
+                try: of = [1] + harness.enc_nodes(fe.find(text, copy.deepcopy(before)))
+                except Exception as ex: of = [1] + enc_find_error(ex)
+                if of != o: problems.append("env%d.find(%r) after this history differs from the same call on a fresh environment with the same registrations" % (e, text))
                 ops.append([4, e] + wire.enc_str(text) + wire.enc_json(before)); outs.append(o); log.append("find env%d %r doc%d -> %r" % (e, text, d, o[:3]))
             else:
                 text = gen.render_query(rng, gen.rand_query(rng, names=names, reg=[b for b in gen.BUILTINS if b[0] not in ('match', 'search')], depth=2, maxseg=3)); d = rng.randrange(len(docs))
                 before = copy.deepcopy(docs[d])
                 try: o = [1] + harness.enc_nodes(jp.find(text, docs[d]))
-                except Exception as ex: o = [1] + wire.enc_exception(ex)[:2] + ([0] if wire.enc_exception(ex)[0] == 1 else [])
+                except Exception as ex: o = [1] + enc_find_error(ex)
                 if wire.enc_json(before) != wire.enc_json(docs[d]): problems.append("module find modified its argument")
                 ops.append([5] + wire.enc_str(text) + wire.enc_json(before)); outs.append(o); log.append("module find %r doc%d -> %r" % (text, d, o[:3]))
         # a compiled query whose filter looks at the root, applied to the same object before and after the object changes
@@ -164,7 +195,7 @@ def cases(ctx, budget):
                 for rnd in range(3):
                     before = copy.deepcopy(doc)
                     try: o = [1] + harness.enc_nodes(cq.find(doc))
-                    except Exception as ex: o = [1] + wire.enc_exception(ex)[:2] + ([0] if wire.enc_exception(ex)[0] == 1 else [])
+                    except Exception as ex: o = [1] + enc_find_error(ex)
                     ops.append([3, len(compiled) - 1] + wire.enc_json(before)); outs.append(o); log.append("apply cq%d to %r -> %r" % (len(compiled) - 1, before, o[:3]))
                     import jsonpath_rfc9535 as _jp
                     if regs[e] == [] and o != fresh_result(_jp.JSONPathEnvironment, text, before):
@@ -191,7 +222,7 @@ def cases(ctx, budget):
                     text = rng.choice(["$[?%s(@, '%s')]" % (fn, pat), "$[?!%s(@, '%s')]" % (fn, pat), "$..[?%s(@, '%s')]" % (fn, pat)])
                 before = copy.deepcopy(sdoc)
                 try: o = [1] + harness.enc_nodes(envs[e].find(text, sdoc))
-                except Exception as ex: o = [1] + wire.enc_exception(ex)[:2] + ([0] if wire.enc_exception(ex)[0] == 1 else [])
+                except Exception as ex: o = [1] + enc_find_error(ex)
                 log.append("regex find env%d %r -> %r" % (e, text, o[:3]))
                 if wire.enc_json(before) != wire.enc_json(sdoc): problems.append("regex find modified its argument")
                 if not any(x[0] in ("match", "search") for x in regs[e]) and o != fresh_result(_jp.JSONPathEnvironment, text, before):
@@ -203,7 +234,7 @@ def cases(ctx, budget):
         nontriv = any(o[0] == 1 for o in ops) and any(o[:2] == [1, 0] and len(o) > 3 and o[2] > 0 for o in outs)
         yield Case({"ops": len(ops), "history": log, "docs": docs}, req, out, None, None, nontriv, "history")
         if problems:
-            yield Case({"problems": problems}, None, [9], [118, 0], None, True, "history", True, lambda a, b, p=problems: "; ".join(p[:3]))
+            yield Case({"problems": problems, "history": log, "docs": docs}, None, [9], [118, 0], None, True, "history", True, lambda a, b, p=problems: "; ".join(p[:3]))
 
 
 def norm_reply(r):
